@@ -12,22 +12,26 @@ def pick_texel(rng, small=False):
     return rng.choice(TEXELS)
 
 
-def contig_len(rng, t, max_texels=60):
+def contig_len(rng, t, max_texels=60, small=False):
     c = rng.random()
+    if small and c < 0.55:
+        # dense in the 0.2 - 2.5 texel range, where shared terminal contigs are resolved by discarding
+        return max(1, int(t * rng.uniform(0.2, 2.5)))
     if c < 0.08:
         return 1
     if c < 0.22:
         return rng.randint(1, max(1, int(t)))  # < 1 texel (or 1 bp)
     if c < 0.5:
         return rng.randint(max(1, int(t)), max(2, int(4 * t)))
-    return rng.randint(max(1, int(4 * t)), max(3, int(max_texels * t)))
+    lo = max(1, int(min(4, max_texels / 2) * t))
+    return rng.randint(lo, max(lo, 3, int(max_texels * t)))
 
 
 def gap_len(rng, t):
-    return rng.choice([1, 10, 100, 200, 200, 200, int(t * rng.uniform(0.1, 5)) + 1])
+    return rng.choice([1, 10, 10, 100, 200, 200, 200, int(t * rng.uniform(0.1, 5)) + 1, int(t * rng.uniform(0.02, 0.3)) + 1])
 
 
-def gen_input(rng, t, n_scaff=None, mode=None, strands=None, max_contigs=8, max_texels=60, name_prefix="scaffold_", terminal_gaps=False):
+def gen_input(rng, t, n_scaff=None, mode=None, strands=None, max_contigs=8, max_texels=60, name_prefix="scaffold_", terminal_gaps=False, small_contigs=False):
     """Returns (scaffolds, labels).
 
     mode 'fasta'  : contig name = scaffold name, contig coordinates = scaffold
@@ -66,7 +70,7 @@ def gen_input(rng, t, n_scaff=None, mode=None, strands=None, max_contigs=8, max_
                         labels.add("in:consecutive-gaps")
                 else:
                     labels.add("in:gapless-junction")
-            ln = contig_len(rng, t, max_texels)
+            ln = contig_len(rng, t, max_texels, small_contigs)
             if ln == 1:
                 labels.add("in:1bp-contig")
             if mode == "fasta":
